@@ -72,10 +72,7 @@ Eval vm_compute in ("<<<M1469>>>" ++ check (runes_of_ascii "packet Z9_ {
             42 : metadata,
             // `tick` ""quote"" 'q'
             [255, ""\n""] : zchar,
-            [
-                3, 4294967296, 0123456789,
-                """ ++ [233]%N ++ runes_of_ascii "t" ++ [233]%N ++ runes_of_ascii """, ""x y""
-            ] : metadata,
+            [3, 4294967296, 0123456789, """ ++ [233]%N ++ runes_of_ascii "t" ++ [233]%N ++ runes_of_ascii """, ""x y""] : metadata,
             [""it's"", ""// no comment""] : Z9_,
         },
     },
@@ -236,65 +233,59 @@ match crc as chars
 :
 As
     } , i16 msg_type , }")).
-Eval vm_compute in ("<<<M17>>>" ++ check (runes_of_ascii "
-MetaData
-    x{ len
-    crc , float
-    // " ++ [128512]%N ++ runes_of_ascii " emoji
-    asx, i32 uint8x`line1
-line2` ,u16
-tag
-// `tick` ""quote"" 'q'
-//x
-`it's` , As string_
+Eval vm_compute in ("<<<M13>>>" ++ check (runes_of_ascii "root
+    packet	roots{ // `tick` ""quote"" 'q'
+} options	{	asx =
+    ""\n"" ; x_y_z =
+3 ;rootA = ""CRC32""
+    ;float=char  T = false
+; }
+packet falsey {
+body { match u8x as /// triple
+string_{ [
+42,7 ,65535
     ,
-}
-packet metadata {@lengthOf(zchar )// c
-i64_ @calculatedFrom(
-""\" ++ [233]%N ++ runes_of_ascii """	) , //x
-@leftPad
-    ( '\x00' ) zchar[ 10
-] zchar
-    ,
-    lengthOf //x
-string_ ,int @lengthOf( pack
-    ),
-    zchar[ 00 ]
-    Foo , @lengthOf( packetx )
-    @leftPad (
-'\x00'// " ++ [27880; 37322]%N ++ runes_of_ascii "
-) @calculatedFrom(
+    3 ,
+    42 ,7 , ""1""
+    , ""packet"" ]:
+    // `tick` ""quote"" 'q'
+    i64_ , [ ""abc""]
+    :  Foo ,	""a\\""
+    :
+roots ,
+    4294967296 :	stringy	}
+    , //x
+asx
+`{ , }` // " ++ [128512]%N ++ runes_of_ascii " emoji
+, i8
+charz@lengthOf( // trailing space 
+x_y_z)// trailing space 
+`a\` ,}
     // @lengthOf(
-    ""x y"" )uint16
-len@calculatedFrom( """" )
-`two words` , int8
-    metadata @lengthOf( Foo )`two words`	, // @lengthOf(
-}options
-{ }
-packet
-pack{
-// `tick` ""quote"" 'q'
-//
-f64
-    o , T BodyLength  ,
-    repeat
-    uint8 chars  `" ++ [233]%N ++ runes_of_ascii "`
-    ,repeat
-    // c
-    Logon
-u
-    // " ++ [128512]%N ++ runes_of_ascii " emoji
-    ,@tag(
-    0123456789 )
-char[] repeatCount @lengthOf(// " ++ [27880; 37322]%N ++ runes_of_ascii "
-_x )
-    // c
-    `
-` ,//
-@tag(
-// packet A { u8 x, }
-/// triple
-7 )  repeatCount @calculatedFrom(""packet"" ) `{ , }` , }")).
+    , @tag( 65535 ) i64_ @lengthOf( tag )`u8 x,`
+// a // b
+//	t
+,Z9_@lengthOf( int )
+, @calculatedFrom( ""a\""b""
+)uint16  stringy @lengthOf( trueish ) , Logon	{string  Logon `say ""hi""` , packetx
+i64_ , match msg_type as	float
+{ ""\n"" : i64_,	[
+""" ++ [128512]%N ++ runes_of_ascii """
+    ]
+:
+metadata , // `tick` ""quote"" 'q'
+[
+// trailing space 
+// " ++ [128512]%N ++ runes_of_ascii " emoji
+10, ""1""  ]
+:zchar ,
+}
+    , //x
+}
+    //x
+    , Packet
+    @calculatedFrom(""CRC32"" ), }
+")).
 Eval vm_compute in ("<<<M135>>>" ++ check (runes_of_ascii "
 packet crc
     {@tag(	0)  @calculatedFrom(
@@ -514,60 +505,59 @@ root packet Header {
         repeat char[] o `it's`,
     },
 }")).
-Eval vm_compute in ("<<<M1677>>>" ++ check (runes_of_ascii "
+Eval vm_compute in ("<<<M1795>>>" ++ check (runes_of_ascii "//	t
 packet
-    leftPad // trailing space 
-      {
-
-@tag(	10
-
-    )  @tag(
-
-007 )@lengthOf(
-a1
+    u8x  { u8x	{ body
+	@calculatedFrom( ""`tick`""
 ) 
-    // a // b
-//
-  repeat
-metadata
+`say ""hi""` , match  a1
+as
+	asx // c
+  {
+//	t
+
+0	:
+    // " ++ [27880; 37322]%N ++ runes_of_ascii "
+
+  // @lengthOf(
+
+	asx}  ,}, 
+@rightPad (
+) match
+
+    Logon as  x
+
+{
+    [00  ,
+""// no comment""
+
     ,
 
-} 	 // " ++ [128512]%N ++ runes_of_ascii " emoji
-options
-	// @lengthOf(
-  	{lengthOf =""" ++ [128512]%N ++ runes_of_ascii """
-;
-    }	packet  T
-	// " ++ [27880; 37322]%N ++ runes_of_ascii "
-	{
-A
+""a\\"" , 0123456789
+// trailing space 
 
-{ 
-      //
-    	// `tick` ""quote"" 'q'
+, 4294967296] :crc	, 
+00
+: options1, 	 // " ++ [27880; 37322]%N ++ runes_of_ascii "
+    42 : i8i8 ,
+    0
 
-	tag
-@calculatedFrom(	""abc""
+:  o
+	0123456789 :
+body
+, }	, @tag(
+    7 
 )
+    float@lengthOf(
 
-,  } 
-,@lengthOf(  matchKey
+stringy	)`" ++ [233]%N ++ runes_of_ascii "` 
+,
+    u
+        // c
+    @lengthOf(msg_type
     )
-    string
-
-    Header	@lengthOf(
-
-    metadata)
-
     ,
-
-leftPad
-    // trailing space 
-  @calculatedFrom(  ""a\""b"" ) `crlf
-line` ,
-
-    }
-")).
+    }")).
 Eval vm_compute in ("<<<M335>>>" ++ check (runes_of_ascii "//	t
 packet u8x  {
 u8x { body
@@ -661,22 +651,32 @@ tag
 x= 10;
 }
 ")).
-Eval vm_compute in ("<<<M1435>>>" ++ check (runes_of_ascii "packet float {
-    @rightPad()
-    // c5a
-    // c5b
-    rootA @lengthOf(trueish),
-    // c10
-    stringy @lengthOf(matchKey),// c15a
-    // c15b
-    char[4294967296] pack @lengthOf(uint8x),
-}// c24
-
-root packet trueish {
-    // c28
-    repeat uint64 u128 `line1
-        line2`,
-}")).
+Eval vm_compute in ("<<<M1138>>>" ++ check (runes_of_ascii "// top
+MetaData // c0
+leftPad // c1
+{ // c2
+chars // c3
+MetaDataX // c4
+, // c5
+} // c6
+packet // c7
+repeatCount // c8
+{ // c9
+char[ // c10
+255 // c11
+] // c12
+uint8x // c13
+`" ++ [233]%N ++ runes_of_ascii "` // c14
+, // c15
+} // c16
+MetaData // c17
+pack // c18
+{ // c19
+As // c20
+Foo // c21
+, // c22
+} // c23
+")).
 Eval vm_compute in ("<<<M1704>>>" ++ check (runes_of_ascii "packet A {
     // c2a
     // c2b
